@@ -19,7 +19,7 @@ import (
 
 func TestMain(m *testing.M) { kit.Main(m) }
 
-const rule = "digraphs over node components (rich family: qualified slices + ring/group/by-name edges, required variants placed where the model says satisfiable or deliberately not, self-only family; pure family: every digraph on n<=3 (thorough: 4) nodes x creation orders x required/optional); no substituting post-processor; non-trivial = model graph has a directed cycle or an only-self point; distinct by scenario shape"
+const rule = "digraphs over node components (rich family: qualified slices + ring/group/by-name edges, required variants placed where the model says satisfiable or deliberately not, self-only family; pure family: every digraph on n<=3 (thorough: 4) nodes x creation orders x required/optional); no substituting post-processor; non-trivial = model graph has a directed cycle or an only-self point; distinct by scenario shape; since rounds 7/8 also stand-ins pre-filled into single-valued points, 1300 mutually referring components of one type, and (own process) a cycle announced through ioc.Register started by ioc.Run with a registry of its own"
 
 type fataler interface{ Fatalf(string, ...any) }
 
